@@ -119,3 +119,18 @@ CASES += [
     {"name": "tensor form rebinds the operand's data through a local name", "kind": "twin", "edits": [
         ("quantarhei/qm/liouvillespace/superoperator.py", "            oper.data = numpy.tensordot(self.data, oper.data)", "            res = numpy.tensordot(self.data, oper.data)\n            oper.data = res", 1)]},
 ]
+
+_OS7 = "quantarhei/builders/opensystem.py"
+CASES += [
+    {"name": "cut-off time not handed to the time-independent Redfield tensor (the repaired defect)", "kind": "mutant", "rule": "C07-K", "edits": [
+        (_OS7, "                    relaxT = RedfieldRelaxationTensor(ham, sbi,\n                                        cutoff_time=relaxation_cutoff_time,\n",
+               "                    relaxT = RedfieldRelaxationTensor(ham, sbi,\n", 1)]},
+    {"name": "operator form not handed to the time-dependent Redfield tensor", "kind": "mutant", "rule": "C07-K", "edits": [
+        (_OS7, "                    relaxT = TDRedfieldRelaxationTensor(ham, sbi,\n                                        cutoff_time=relaxation_cutoff_time,\n                                        as_operators=as_operators)\n",
+               "                    relaxT = TDRedfieldRelaxationTensor(ham, sbi,\n                                        cutoff_time=relaxation_cutoff_time)\n", 1)]},
+    {"name": "cut-off time handed over by position", "kind": "twin", "edits": [
+        (_OS7, "                    relaxT = RedfieldRelaxationTensor(ham, sbi,\n                                        cutoff_time=relaxation_cutoff_time,\n",
+               "                    relaxT = RedfieldRelaxationTensor(ham, sbi, True,\n                                        relaxation_cutoff_time,\n", 1),
+        (_OS7, "                    relaxT = TDRedfieldRelaxationTensor(ham, sbi,\n                                        cutoff_time=relaxation_cutoff_time,\n",
+               "                    relaxT = TDRedfieldRelaxationTensor(ham, sbi, True,\n                                        relaxation_cutoff_time,\n", 1)]},
+]
